@@ -392,6 +392,9 @@ def enum_date3(ctx):
 DT_OPS = ["a = b", "a != b", "a - b", "b - a", "a between b and c", "a in [b..c]", "a in (b..c)", "a in < b", "a in <= b", "a in > b", "a in >= b",
           "a < b", "a <= b", "a > b", "a >= b"]
 DT_CMP_OPS = ("a < b", "a <= b", "a > b", "a >= b")
+# null traces of the catch-all arms of build_lt/le/gt/ge on the pinned tree (a null from anywhere else, e.g. from
+# eval_in_unary_less on operands outside chrono's range, is not this defect)
+NO_ARM_MESSAGES = ("eval_less_then", "eval_less_or_equal", "eval_greater_then")
 
 
 def reqs_dts(case):
@@ -462,7 +465,7 @@ def judge_dts(ctx, case, resp):
             continue
         sig = "C15/datetime-wrong"
         if is_null(g):
-            if op in DT_CMP_OPS and isinstance(g, dict) and str(g.get("N", "")).startswith("eval_"):
+            if op in DT_CMP_OPS and isinstance(g, dict) and g.get("N") in NO_ARM_MESSAGES:
                 sig = "C15/operator-null/compare/dt"          # the operator has no arm for date-times at all
             elif not all(inr[i] for i in involved):
                 sig = "C15/datetime-null-outside-chrono-range"
